@@ -33,9 +33,11 @@ def mk_case(cid, abstract, rng, plain=False, overlap=False):
         popt["word_sec"] = rng.choice(["Section ", "Sec. ", "§"])
     if not plain and rng.random() < 0.2:
         popt["justify_linebreaks"] = rng.choice(["\t", "", "    "])
+    # the ways to the tracts: at creation (the usual one), a deferred parse, or asking what the tracts would be
+    route = None if plain else rng.choice([None, None, None, None, None, "deferred", "dry"])
     return {"id": cid, "kind": "c01",
             "abs": {"layout": doc["layout"], "groups": doc["groups"]},
-            "args": {"text": text, "doc": doc, "pretty_opts": popt}}
+            "args": {"text": text, "doc": doc, "pretty_opts": popt, "route": route}}
 
 
 def check(ctx, cases):
